@@ -109,3 +109,100 @@ func TestHandoffGiveUpRace(t *testing.T) {
 	}
 	_ = fmt.Sprint
 }
+
+// TestUnblockRace runs, in real time, a second completion while the first completion's unblock() is parked
+// (holding the limiter mutex) at its k-th gate: on this tree the second completion's unblock blocks on the mutex
+// and serves the next waiter afterwards; a change that lets it skip or overtake must not strand a waiter with
+// capacity free (C10 / C19), lose a token (C02) or serve out of order (C11).
+func TestUnblockRace(t *testing.T) {
+	w := newNdWriter(t, filepath.Join(outDir(t), "unblock_trace.ndjson"))
+	defer w.close()
+	trace := 0
+	for rep := 0; rep < envInt("VERIF_N", 2); rep++ {
+		for _, ord := range []string{"fifo", "lifo"} {
+			for k := 1; k <= 5; k++ {
+				names := []string{"h1", "h2", "w1", "w2"}
+				c := newController()
+				s := newScenario(t, c, names)
+				s.settle = func() { s.settleRealTime(3*time.Millisecond, 300*time.Millisecond) }
+				c.emit = s.ev
+				limiter.VerifPoint = nil
+				dl, busy, err := newDelegate(2, rep%2 == 1)
+				if err != nil {
+					t.Fatal(err)
+				}
+				gl := &GatedLimiter{c: c, inner: dl}
+				reg := newRecordingRegistry()
+				o := limiter.OrderingFIFO
+				if ord == "lifo" {
+					o = limiter.OrderingLIFO
+				}
+				s.lim = limiter.NewQueueBlockingLimiterFromConfig(gl, limiter.QueueLimiterConfig{Ordering: o, MaxBacklogSize: 4, MaxBacklogTimeout: -1, MetricRegistry: reg})
+				s.extra = func() J {
+					q, _ := reg.GaugeByID(core.MetricQueueSize)
+					return J{"busy": busy(), "gauge": int(dl.VerifInFlight()), "q": q, "t": 0}
+				}
+				cfg := wrapCfg{Kind: "queue", Ctor: fmt.Sprintf("unblock-race/k=%d", k), Limit: 2, QMax: 4, QTimeout: 0, Ordering: ord, Expect: ord, Procs: names}
+				w.write(J{"ev": "Reset", "trace": trace, "cfg": cfg, "obs": s.observe()})
+				i := 0
+				do := func(st schedStep) bool {
+					if err := s.apply(st); err != nil {
+						return false
+					}
+					i++
+					w.write(J{"ev": "Step", "trace": trace, "i": i, "step": st, "evs": s.events(), "obs": s.observe()})
+					return true
+				}
+				for _, n := range names {
+					do(schedStep{A: "start", P: n, Call: "acquire"})
+				}
+				c.mu.Lock()
+				c.enabled["acq.enter"], c.enabled["acq.exit"] = true, true
+				c.mu.Unlock()
+				do(schedStep{A: "start", P: "h1", Call: "release", Outcome: "success"})
+				for v := 1; v < k; v++ {
+					pm := c.parkedMap()
+					if g, ok := pm["h1"]; ok {
+						do(schedStep{A: "pass", P: "h1", Gate: g})
+					}
+				}
+				// the second completion arrives while the first one is parked inside unblock
+				do(schedStep{A: "start", P: "h2", Call: "release", Outcome: "success"})
+				time.Sleep(2 * time.Millisecond)
+				for n := 0; n < 20; n++ {
+					pm := c.parkedMap()
+					if len(pm) == 0 {
+						break
+					}
+					keys := sortedKeys(pm)
+					// the first completion first (it holds the mutex), then whoever is parked
+					key := keys[0]
+					if _, ok := pm["h1"]; ok {
+						key = "h1"
+					}
+					do(schedStep{A: "pass", P: key, Gate: pm[key]})
+				}
+				c.mu.Lock()
+				c.enabled = map[string]bool{}
+				c.mu.Unlock()
+				for round := 0; round < 4; round++ {
+					progressed := false
+					for _, n := range names {
+						if s.procs[n].state == "granted" {
+							do(schedStep{A: "start", P: n, Call: "release", Outcome: "ignore"})
+							progressed = true
+						}
+					}
+					if !progressed {
+						break
+					}
+				}
+				w.write(J{"ev": "End", "trace": trace, "i": i + 1, "obs": s.observe()})
+				for _, n := range names {
+					s.procs[n].cancel()
+				}
+				trace++
+			}
+		}
+	}
+}
